@@ -6,16 +6,31 @@ From Coq Require Import NArith List.
 From LCP Require Import Base.CheckedMem Util.Getopt Util.GetoptSearch Util.GetoptSteps Util.GetoptProofs.
 Import ListNotations.
 
-(* for every state of the statics with optreset set, every table of NUL-free names (any names:
-   registration may refuse them, which is an abort, not a read), every argv of terminated strings:
-   no Fault, and the loop terminates within the fuel given *)
+(* for every state of the statics with optreset set, every table of NUL-free names (any names),
+   every argv of terminated strings: no Fault, the loop terminates within the fuel given, and the
+   run aborts (AssertFail) exactly when the registration pass refuses the table -- a DIE of
+   getopt_register_opt before any argv word is looked at (reg_accepts: every name "-x"/"--long" and
+   not matched by an earlier label; C18_reg_accepts_meaning); in particular never for a
+   well-formed table (C18_wf_table_accepted) *)
 Theorem C15_getopt_no_fault :
   forall s (t : table) (miss : option nat) (argv : list str),
     names_nn t -> wf_miss t miss -> Forall no_nul argv ->
     run_from (set_optreset true s) t miss argv <> Fault /\
-    run_from (set_optreset true s) t miss argv <> OutOfFuel.
-Proof. exact getopt_no_fault. Qed.
+    run_from (set_optreset true s) t miss argv <> OutOfFuel /\
+    (run_from (set_optreset true s) t miss argv = AssertFail <-> ~ reg_accepts t).
+Proof. exact getopt_no_fault_exact. Qed.
 Print Assumptions C15_getopt_no_fault.
+
+(* the same for a compiled GETOPT_SWITCH statement in any source layout (wf_miss holds by
+   construction) *)
+Theorem C15_switch_no_fault :
+  forall s (lay : layout) (argv : list str),
+    names_nn (table_of lay) -> Forall no_nul argv ->
+    run_switch_from (set_optreset true s) lay argv <> Fault /\
+    run_switch_from (set_optreset true s) lay argv <> OutOfFuel /\
+    (run_switch_from (set_optreset true s) lay argv = AssertFail <-> ~ reg_accepts (table_of lay)).
+Proof. exact switch_no_fault. Qed.
+Print Assumptions C15_switch_no_fault.
 
 (* searchopt alone, on any terminated string: stays inside it and returns the first matching slot *)
 Theorem C15_searchopt_in_bounds :
